@@ -21,7 +21,7 @@ FxVerdict(t) ==
   ELSE IF t.exc # "" THEN "drift:real-raised-model-does-not"
   ELSE
   LET res == FxResult(x)
-      real == [j \in DOMAIN t.bits |-> Canon(t.bits[j])]
+      real == [j \in DOMAIN t.bits |-> CanonE(t.bits[j])]
       ins == FxInputs(x)
       U == Rows(Len(ins))
       env == InputEnv(ins, U)
@@ -38,7 +38,7 @@ Verdict(t) ==
   IN IF t.exc # "" THEN (IF Rejects(res) THEN "conform" ELSE "drift:real-raised-model-does-not")
      ELSE IF Rejects(res) THEN "drift:model-rejects-real-does-not"
      ELSE
-     LET real == [j \in DOMAIN t.bits |-> Canon(t.bits[j])]
+     LET real == [j \in DOMAIN t.bits |-> CanonE(t.bits[j])]
          ins == Inputs(x)
          U == Rows(Len(ins))
          env == InputEnv(ins, U)
